@@ -70,6 +70,8 @@ func genC11(g *simrt.Tape, tier string) any {
 		sc.DiscoverMode = 1 + g.Draw(2)
 	}
 	sc.Cluster = g.Draw(5) == 0
+	sc.DefaultDialer = g.Draw(3) == 0
+	sc.DialCtxCancelled = g.Draw(3) == 0
 	return sc
 }
 
@@ -222,6 +224,15 @@ func c11Floor(tier string) []*ClientSc {
 						calls := append([]CallSc{{Kind: "request"}}, next...)
 						out = append(out, &ClientSc{Prop: "C11", Enforce: enforce, Suffix: 3, FinalClose: true, DataEOF: de, Behav: bh,
 							Callers: []CallerSc{{Calls: calls}}})
+						if !de {
+							// the same through the library's default dialer and the cluster entry point, with the
+							// context of the Dial cancelled once Dial has returned
+							for v := 1; v < 8; v++ {
+								out = append(out, &ClientSc{Prop: "C11", Enforce: enforce, Suffix: 3, FinalClose: true, Behav: bh,
+									DefaultDialer: v&1 != 0, DialCtxCancelled: v&2 != 0, Cluster: v&4 != 0,
+									Callers: []CallerSc{{Calls: calls}}})
+							}
+						}
 					}
 				}
 			}
